@@ -408,4 +408,4 @@ def run(ctx):
             'offset argument of every collector call, the optimizer window '
             'rule shared with C08, and (emission interpreter) marker balance '
             'of the manual markers in gen_if_block / gen_select_block. '
-            'Attribution of text to instructions is NOT decided.')
+            'Attribution of text to instructions is NOT decided. Also: child_fields completeness, the order-domain analysis of DebugInfo.finalize, replace_child keeps the location, the line offset advances by the unmodified input line.')
